@@ -18,3 +18,53 @@ pub mod sync {
     #[verifier::reject_recursive_types(T)]
     pub struct Mutex<T> { t: T }
 }
+pub mod collections {
+    use vstd::prelude::*;
+    /// ASSUMED: a HashSet collected from an iterator keeps the FIRST of any two elements
+    /// that are equal under the element's `PartialEq`; its iteration order is unspecified.
+    #[verifier::external_body]
+    #[verifier::accept_recursive_types(T)]
+    pub struct HashSet<T> { v: Vec<T> }
+}
+pub mod hash {
+    use vstd::prelude::*;
+    pub trait Hash { }
+    pub trait Hasher { }
+}
+pub mod time {
+    use vstd::prelude::*;
+    /// a clock reading; `nanos` = nanoseconds since the Unix epoch (negative: before it)
+    #[verifier::external_body]
+    pub struct SystemTime { t: u8 }
+    impl View for SystemTime { type V = int; uninterp spec fn view(&self) -> int; }
+    /// `sampled(t)`: t is a value the wall clock actually returned during this call
+    pub uninterp spec fn sampled(t: int) -> bool;
+    pub const UNIX_EPOCH: Epoch = Epoch { };
+    pub struct Epoch { }
+    #[verifier::external_body]
+    pub struct Duration { d: u8 }
+    impl View for Duration { type V = int; uninterp spec fn view(&self) -> int; }
+    #[verifier::external_body]
+    pub struct SystemTimeError { d: u8 }
+    #[verifier::external]
+    impl ::std::fmt::Debug for SystemTimeError { fn fmt(&self, f: &mut ::std::fmt::Formatter<'_>) -> ::std::fmt::Result { Ok(()) } }
+    impl SystemTime {
+        #[verifier::external_body]
+        /// ASSUMED: the wall clock is not before 1970 (otherwise `now()` in index.rs panics)
+        pub fn now() -> (r: SystemTime) ensures sampled(r@), r@ >= 0 { unimplemented!() }
+        #[verifier::external_body]
+        pub fn duration_since(&self, e: Epoch) -> (r: ::std::result::Result<Duration, SystemTimeError>)
+            ensures self@ >= 0 <==> r is Ok, r is Ok ==> r->Ok_0@ == self@
+        { unimplemented!() }
+    }
+    impl Duration {
+        #[verifier::external_body]
+        pub fn as_millis(&self) -> (r: u128) requires self@ >= 0 ensures r == self@ / 1_000_000 { unimplemented!() }
+        #[verifier::external_body]
+        pub fn as_secs(&self) -> (r: u64) requires self@ >= 0 ensures r == self@ / 1_000_000_000 { unimplemented!() }
+        #[verifier::external_body]
+        pub fn as_micros(&self) -> (r: u128) requires self@ >= 0 ensures r == self@ / 1_000 { unimplemented!() }
+        #[verifier::external_body]
+        pub fn as_nanos(&self) -> (r: u128) requires self@ >= 0 ensures r == self@ { unimplemented!() }
+    }
+}
